@@ -118,3 +118,11 @@ pub fn k_dyn_layout() {
     assert!(d.header() as *const KHdr == ptr::addr_of!(d.header));
     assert!(d.payload().as_ptr() == d.payload.as_ptr() && d.payload().len() == meta);
 }
+
+// ---- vacuity guard (engine K): this harness MUST fail
+#[kani::proof]
+pub fn k_canary_must_fail() {
+    let s: usize = kani::any();
+    kani::assume(s <= usize::MAX - 7);
+    assert!(increase_to_alignment(s) == s + 8);
+}
